@@ -401,6 +401,7 @@ def _check_result(mon, op, targets, skeleton, res_root, d, entry="fiber"):
         mon.check(all(got_upper[i] < got_upper[i + 1] for i in range(len(got_upper) - 1)), f"{name}:upper-order",
                   f"{what}: upper coordinates not strictly ascending: {got_upper}")
         obs = []
+        rel_broken = False
         for s, low in lowers:
             if len(low.coords) != len(low.payloads):
                 mon.violation(f"{name}:lower-length", f"{what}: partition {s} has {len(low.coords)} coords, {len(low.payloads)} payloads")
@@ -414,6 +415,7 @@ def _check_result(mon, op, targets, skeleton, res_root, d, entry="fiber"):
                     offs = {b - a for a, b in zip(want, raw)}
                     if rel and len(raw) == len(want) and len(offs) == 1:
                         key = "relative-coords"         # right members, wrong offset
+                        rel_broken = True
                     else:
                         key = "halo-members" if (pre or post) else "members"
                     mon.violation(f"{name}:{key}", f"{what}: partition {s} stores coordinates {raw}, expected {want} "
@@ -428,7 +430,8 @@ def _check_result(mon, op, targets, skeleton, res_root, d, entry="fiber"):
                 mon.check(tuple(ar) == tuple(ear), f"{name}:active-range",
                           f"{what}: partition {s} active range {ar}, its interval clipped to the parent's is {ear}")
         # ---- model-independent clause checks on what was observed
-        _clause_checks(mon, name, kind, arg, what, elems, a0, a1, pre, post, rel, obs)
+        if not rel_broken:      # (with wrong offsets the absolute positions of the members are unknown)
+            _clause_checks(mon, name, kind, arg, what, elems, a0, a1, pre, post, rel, obs)
         if len(obs) >= 2 and sum(1 for c, _ in elems if a0 <= c < a1) >= 2:
             big = True
         seen.append((tgt, obs))
@@ -467,7 +470,7 @@ def _clause_checks(mon, name, kind, arg, what, elems, a0, a1, pre, post, rel, ob
                   f"{what}: active element {c} lies in the active range of {len(homes)} partitions and is stored in {len(inside)} of them")
         if not (pre or post):
             n = sum(1 for cs in absolute if c in cs)
-            mon.check(n == 1, f"{name}:duplicated", f"{what}: element {c} stored {n} times without halos")
+            mon.check(n == 1, f"{name}:not-exactly-once", f"{what}: element {c} stored {n} times without halos")
     if kind in ("splitEqual", "splitUnEqual"):
         # chunk sizes counted over the elements inside each partition's own active range
         sizes = [sum(1 for c in cs if lo <= c < hi) for cs, (lo, hi) in zip(absolute, ranges)]
